@@ -10,7 +10,7 @@ CRATE = "c10"
 COQ_DIR = "C10"
 COQ_DEPS = []
 PROFILES = ["debug"]
-CORR_IMPORT = "From RlibV Require Import C10.Model C10.Corr.\nOpen Scope Z_scope."
+CORR_IMPORT = "From Coq Require Import Floats.\nFrom RlibV Require Import C10.Model C10.Corr.\nOpen Scope Z_scope."
 CASE_TYPE = "case"
 AUDIT_IMPORT = ("From Coq Require Import Reals ZArith List Bool.\n"
                 "From RlibV Require Import C10.Model C10.Corr.\n")
@@ -66,8 +66,18 @@ def harness_line(c):
     raise ValueError(op)
 
 
+def flit(x):
+    """exact Coq float literal"""
+    x = float(x)
+    if x != x:
+        return "nan"
+    if x in (float("inf"), float("-inf")):
+        return "infinity" if x > 0 else "neg_infinity"
+    return "(%s)" % x.hex()
+
+
 def zs(vals):
-    return " ".join("%d" % bits(v) for v in vals)
+    return " ".join(flit(v) for v in vals)
 
 
 def ls_term(l):
@@ -77,7 +87,7 @@ def ls_term(l):
 def obs_term(obs):
     t = obs.split()
     k = t[0]
-    nums = " ".join(t[1:])
+    nums = " ".join(flit(unbits(x)) for x in t[1:]) if k in ("S", "T", "TI", "TO", "I", "L") else ""
     if k == "P":
         return "OPanic"
     if k == "N":
